@@ -247,9 +247,9 @@ def translate():
                     f"     inits := [{'; '.join(map(str, inits))}]; srcs := [{'; '.join(x.srcs)}];\n     body := [{'; '.join(x.body)}];\n"
                     f"     finals := [{'; '.join(map(str, x.finals))}]; finalised := [{'; '.join(map(str, fin))}] |}}.\n")
     return (f"(* GENERATED by translator/enc2coq.py from {REPO}/bio2zarr/vcf2zarr/vcz.py: the driving skeletons of the partition encoders *)\n"
-            "From Coq Require Import List.\nFrom B2Z Require Import Base.Prims Base.EncSkel.\nImport ListNotations.\n\n"
+            "From Coq Require Import ZArith List.\nFrom B2Z Require Import Base.Prims Base.EncSkel.\nImport ListNotations.\nLocal Open Scope nat_scope.\n\n"
             f"(* array ids: {', '.join(f'{v}={k}' for k, v in names.items())} *)\n\n" + "\n".join(defs)
-            + "\nDefinition gen_encoders : list skel := [" + "; ".join("skel_" + m for m in METHODS) + "].\n" + filters_row(fns))
+            + "\nDefinition gen_encoders : list skel := [" + "; ".join("skel_" + m for m in METHODS) + "].\n" + filters_row(fns) + genotype_trio(fns))
 
 
 def filters_row(fns):
@@ -289,6 +289,58 @@ Fixpoint gen_filter_row_loop (row : list bool) (value : list (option nat)) : res
   | Some i :: tl => gen_filter_row_loop (set_nth i true row) tl
   end.
 Definition gen_filter_row (nf : nat) (value : list (option nat)) : res (list bool) := gen_filter_row_loop (repeat false nf) value.
+"""
+
+
+def genotype_trio(fns):
+    """encode_genotypes_partition: which part of the GT value goes where"""
+    fn = fns["encode_genotypes_partition"]
+    loop = next((x for x in strip(fn.body) if isinstance(x, ast.For)), None)
+    if loop is None or not isinstance(loop.target, ast.Name):
+        raise Unsupported("encode_genotypes_partition: loop")
+    v = loop.target.id
+    if src(loop.iter) != "source_field.iter_values(partition.start, partition.stop)" or "source_field = self.icf.fields['FORMAT/GT']" not in [src(x) for x in strip(fn.body)]:
+        raise Unsupported("encode_genotypes_partition: the source is not FORMAT/GT over the partition's range")
+    names = {}          # buffer local -> array name
+    arr = {}
+    for st in strip(fn.body):
+        if isinstance(st, ast.Assign) and isinstance(st.value, ast.Call) and src(st.value.func) == "self.init_partition_array" and isinstance(st.value.args[1], ast.Constant):
+            arr[src(st.targets[0])] = st.value.args[1].value
+        if isinstance(st, ast.Assign) and isinstance(st.value, ast.Call) and src(st.value.func) in ("core.BufferedArray", "BufferedArray") and src(st.value.args[0]) in arr:
+            names[src(st.targets[0])] = arr[src(st.value.args[0])]
+    got = {}
+    for st in strip(loop.body):
+        t = src(st)
+        if isinstance(st, ast.Assign) and src(st.value).endswith(".next_buffer_row()"):
+            continue
+        if isinstance(st, ast.Expr) and isinstance(st.value, ast.Call) and src(st.value.func).startswith("icf.sanitise_value_") and len(st.value.args) == 3:
+            c = st.value
+            b = src(c.args[0])[: -len(".buff")]
+            a = src(c.args[2])
+            part = {f"{v}[:, :-1] if {v} is not None else None": "AllButLastColumn", f"{v}[:, -1] if {v} is not None else None": "LastColumn"}.get(a)
+            if b not in names or part is None:
+                raise Unsupported("encode_genotypes_partition: sanitiser call: " + t[:120])
+            got[names[b]] = (src(c.func)[len("icf.sanitise_value_"):], part)
+            continue
+        if isinstance(st, ast.Assign) and isinstance(st.targets[0], ast.Subscript) and src(st.targets[0].value).endswith(".buff"):
+            b = src(st.targets[0].value)[: -len(".buff")]
+            val = st.value
+            if b in names and isinstance(val, ast.Compare) and len(val.ops) == 1 and isinstance(val.ops[0], ast.Lt) and src(val.comparators[0]) == "0" \
+                    and isinstance(val.left, ast.Subscript) and src(val.left.value).endswith(".buff") and names.get(src(val.left.value)[: -len(".buff")]) == "call_genotype":
+                got[names[b]] = ("mask", "StoredAlleleBelowZero")
+                continue
+            raise Unsupported("encode_genotypes_partition: store: " + t[:120])
+        raise Unsupported("encode_genotypes_partition: statement: " + t[:100])
+    want = {"call_genotype": ("int_2d", "AllButLastColumn"), "call_genotype_phased": ("int_1d", "LastColumn"), "call_genotype_mask": ("mask", "StoredAlleleBelowZero")}
+    if got != want:
+        raise Unsupported("encode_genotypes_partition: the three arrays are fed " + str(got))
+    return """
+(* encode_genotypes_partition, one record; value = FORMAT/GT as cyvcf2 delivers it: per sample the allele numbers followed by the
+   phase flag.  call_genotype <- sanitise_value_int_2d of all columns but the last; call_genotype_phased <- sanitise_value_int_1d of
+   the last column; call_genotype_mask <- (stored allele < 0) *)
+Definition gen_gt_alleles (value : list (list Z)) : list (list Z) := map (@removelast Z) value.
+Definition gen_gt_phase (value : list (list Z)) : list Z := map (fun r => last r 0%Z) value.
+Definition gen_gt_mask (stored : list (list Z)) : list (list bool) := map (map (fun a => (a <? 0)%Z)) stored.
 """
 
 
